@@ -6,7 +6,9 @@ import datetime as _dt
 from ..core import AnalysisError, Undecided
 from ..e3_rules import get_engine, Shape
 from ..e3_values import *  # noqa
-from .common import rule_construct, report_undecided, norm
+from .common import rule_construct, report_undecided, norm, runs_of, Relevant
+
+RELEVANT = Relevant()
 from .relspec import Summary, ts_sweep
 
 
@@ -45,11 +47,15 @@ def _next_doy(today, m, dd):
 
 def check(ctx, rep, tier):
     eng = get_engine(ctx)
+    RELEVANT.names.clear()
     rep.describe("nearest-future", "the summary term of each latent rule (located by role: "
                  "the unary rule on day-of-month / weekday / day+month / part-of-day values) "
                  "equals, on every (reference time, written value) of the sweep, the nearest "
                  "matching date that is not before the reference date (same day-of-month or "
                  "weekday rolls, same day+month stays), with the written fields preserved")
+    rep.describe("weekday-names", "every English and German weekday name is accepted exactly by "
+                 "groups that make the naming rule return that weekday's index (Monday = 0), so "
+                 "the weekday that was written is the weekday that is searched for")
     rep.describe("weekday-dom-search", "the weekday+day-of-month rule searches from the "
                  "reference time for the written weekday and day")
     sweep = ts_sweep(tier)
@@ -59,13 +65,15 @@ def check(ctx, rep, tier):
     _doy(ctx, rep, eng, sweep)
     _pod(ctx, rep, eng, sweep)
     _dowdom(ctx, rep, eng)
-    report_undecided(rep, eng)
+    _weekday_names(ctx, rep, eng)
+    report_undecided(rep, eng, RELEVANT)
     rep.assume("A2 dateutil model (absolute day= clips to the month length); A3 rrule")
     rep.assume("not decided: ranking of the latent reading against competing readings")
 
 
 def _summary(eng, rule):
-    runs = [run for mk, run in eng.runs.items() if run.rule is rule]
+    RELEVANT.add(rule)
+    runs = runs_of(eng, rule)
     return Summary([p for run in runs for p in run.paths]) if runs else None
 
 
@@ -224,3 +232,61 @@ def _dowdom(ctx, rep, eng):
             call.args and norm(call.args[0]) in ("MONTHLY", "DAILY")
         rep.add("weekday-dom-search", c, rule.where, bool(ok),
                 "" if ok else "rrule arguments are {}".format(kw))
+
+
+WEEKDAYS_EN = ["monday", "tuesday", "wednesday", "thursday", "friday", "saturday", "sunday"]
+WEEKDAYS_DE = ["montag", "dienstag", "mittwoch", "donnerstag", "freitag", "samstag", "sonntag"]
+
+
+def _weekday_names(ctx, rep, eng):
+    from .. import e2_regex as e2
+    from ..e3_values import RefV, IntV
+    n_rules = 0
+    for rule in ctx.rb.rules:
+        if not (len(rule.pats) == 1 and rule.pats[0].kind == "regex"):
+            continue
+        RELEVANT.add(rule)
+        runs = runs_of(eng, rule)
+        group_dow = {}
+        for run in runs:
+            for p in run.paths:
+                if p.kind != "ret" or not isinstance(p.val, RefV):
+                    continue
+                v = p.st.heap[p.val.oid].attrs.get("DOW")
+                if not (isinstance(v, IntV) and v.is_const()):
+                    continue
+                moid = [o.oid for o in p.st.heap.values() if o.sym == ("param", 0, rule.params[1])]
+                cfgs = p.st.cfg.get(moid[0]) if moid else None
+                for cfg in cfgs or []:
+                    for g in cfg:
+                        group_dow.setdefault(g, set()).add(v.lo)
+        if not group_dow:
+            continue
+        n_rules += 1
+        _, P = ctx.wrapped(rule.pats[0].value)
+        nfas = {}
+        for g in group_dow:
+            gg = P.group(g)
+            if gg is None:
+                continue
+            try:
+                nfas[g] = e2.build_nfa(gg.child, P)
+            except Undecided:
+                continue
+        # wrapper groups accept everything: ignore groups that are hit by all names
+        bad = None
+        hits_by_word = {}
+        for i, (en, de) in enumerate(zip(WEEKDAYS_EN, WEEKDAYS_DE)):
+            for w in (en, de):
+                hits_by_word[(i, w)] = [g for g, nfa in nfas.items() if len(w) in e2.nfa_match_prefixes(nfa, w)]
+        wrappers = {g for g in nfas if all(g in h for h in hits_by_word.values())}
+        for (i, w), hits in sorted(hits_by_word.items()):
+            hits = [g for g in hits if g not in wrappers]
+            vals = set()
+            for g in hits:
+                vals |= group_dow.get(g, set())
+            if vals != {i}:
+                bad = bad or "'{}' is accepted by groups {} which give weekday {} (expected {})".format(
+                    w, hits, sorted(vals), i)
+        rep.add("weekday-names", rule_construct(rule, "weekday names"), rule.where, bad is None, bad or "14 names")
+    rep.count("weekday_name_rules", n_rules, 1)
